@@ -254,7 +254,7 @@ def boundary_seek(gm, rng):
     delta = tgt - L + rng.choice([-2, -1, 0, 0, 1, 2])
     n = len(e.rd[0]) + delta
     if 0 <= n <= 9000:
-        e.rd = (bytes(rng.randrange(256) for _ in range(n)),)
+        e.rd = (rng.randbytes(n),)
     return gm
 
 
@@ -424,17 +424,17 @@ def run_prop(ctx, prop, size_bias=None):
         cases.append((kind, m))
     # implementation
     impl = []
-    outs = []
+    sent = []   # the send path (C14: `Zeroconf.async_send` is an anchored mechanism): what leaves for the datagrams the builder made
+    again = []  # a rejected message, asked again
     for _, m in cases:
         keep = {}
-        impl.append(impl_packets(m, keep))
-        outs.append(keep.get("out"))
-    # the send path (C14: `Zeroconf.async_send` is an anchored mechanism): what leaves for the datagrams the builder made
-    sent = [impl_send(o) if (SEND_PATH and prop == "C14" and ik == "ok" and o is not None) else None for o, (ik, _) in zip(outs, impl)]
-    # a rejected message, asked again
-    again = [impl_again(o) if (RETRY_CHECK and prop == "C01" and ik == "err" and iv == "NamePartTooLongException" and o is not None and m.in_quantifier()) else None
-             for o, (ik, iv), (_, m) in zip(outs, impl, cases)]
-    del outs
+        ik, iv = r = impl_packets(m, keep)
+        o = keep.get("out")  # the library object is dropped at once: a thorough run holds > 100 000 messages
+        impl.append(r)
+        sent.append(impl_send(o) if (SEND_PATH and prop == "C14" and ik == "ok" and o is not None) else None)
+        again.append(impl_again(o) if (RETRY_CHECK and prop == "C01" and ik == "err" and iv == "NamePartTooLongException" and o is not None
+                                       and m.in_quantifier()) else None)
+        del o, keep
     lines = []
     idx = []
     for k, ((kind, m), (ik, iv)) in enumerate(zip(cases, impl)):
